@@ -162,6 +162,7 @@ package kvgraph
 // Index fields are named "<graph>.v.<...>" / "<graph>.e.<...>"; graph names contain no
 // '.', so the first dot-component of a field name is its graph.
 //@ func (*KVGraph).deleteGraphIndex
+//@   vars kgraph graph fields f t
 //@   property C16 C03
 //@   option prelude=keys,kv
 //@   option load=kvindex,kvi
@@ -185,6 +186,7 @@ package kvgraph
 // EVERY key (the touched ones and the frame), so the whole view is determined.
 
 //@ func insertVertex
+//@   vars tx idx graph vertex err key value err doc err err
 //@   property C03 C16 C04
 //@   option prelude=keys,kv
 //@   option load=kvindex,kvi,gripql
@@ -196,9 +198,11 @@ package kvgraph
 //@   ensures rejected: !vertexValid(vertex) ==> result != nil && same(kvdom(), old(kvdom())) && same(kvvals(), old(kvvals()))
 //@   ensures acked: result == nil ==> kvhas(VertexKey(graph, vertex.Gid)) && kvval(VertexKey(graph, vertex.Gid)) == pmarshal(box(vertex))
 //@   ensures frame: forall k:Str :: k != VertexKey(graph, vertex.Gid) && !idxkey(k) ==> ((kvhas(k) <==> old(kvhas(k))) && kvval(k) == old(kvval(k)))
+//@   ensures grows: forall k:Str :: old(kvhas(k)) ==> kvhas(k)
 //@   ensures nowrite: kvwrites() == old(kvwrites())
 
 //@ func insertEdge
+//@   vars tx idx graph edge eid err data src dst ekey skey dkey
 //@   property C03 C16 C04
 //@   option prelude=keys,kv
 //@   option load=kvindex,kvi,gripql
@@ -213,12 +217,14 @@ package kvgraph
 //@   ensures rejected: !edgeValid(edge) ==> result != nil && same(kvdom(), old(kvdom())) && same(kvvals(), old(kvvals()))
 //@   ensures acked: result == nil ==> kvhas(ek) && kvhas(sk) && kvhas(dk) && kvval(ek) == pmarshal(box(edge))
 //@   ensures frame: forall k:Str :: k != ek && k != sk && k != dk && !idxkey(k) ==> ((kvhas(k) <==> old(kvhas(k))) && kvval(k) == old(kvval(k)))
+//@   ensures grows: forall k:Str :: old(kvhas(k)) ==> kvhas(k)
 //@   ensures nowrite: kvwrites() == old(kvwrites())
 
 // DelEdge removes the edge key found under the edge-id prefix together with exactly its
 // by-source and by-destination entries, touches the graph's timestamp, and changes
 // nothing else; an absent edge is an error that changes nothing.
 //@ func (*KVInterfaceGDB).DelEdge
+//@   vars kgdb eid ekeyPrefix ekey sid did label etype skey dkey err it tx err err
 //@   property C04 C03
 //@   option prelude=keys,kv,idxkeys
 //@   option load=kvindex,kvi,timestamp
@@ -248,6 +254,7 @@ package kvgraph
 // AddVertex: one bulk write; only the vertex keys of the given ids (and index keys)
 // change; the graph's timestamp is touched exactly when something was stored.
 //@ func (*KVInterfaceGDB).AddVertex
+//@   vars kgdb vertices bulkErr err tx changed vert vertex err err
 //@   property C04 C03
 //@   option prelude=keys,kv
 //@   option load=kvindex,kvi,timestamp,gdbi,gripql
@@ -261,15 +268,18 @@ package kvgraph
 //@       (exists j :: 0 <= j && j <= rangeindex && k == vkeyOf(kgdb.graph, vertices[j].ID))
 //@   loop 101 invariant quiet: same(touchedset(), old(touchedset())) && (bulkErr == nil && rangeindex >= 0 ==> changed) && (rangeindex < 0 ==> !changed)
 //@   loop 101 invariant bound: rangeindex < len(vertices)
+//@   loop 101 invariant stored: changed ==> (exists j :: 0 <= j && j <= rangeindex && kvhas(vkeyOf(kgdb.graph, vertices[j].ID)))
 //@   loop 101 invariant nw: kvwrites() == old(kvwrites())
 //@   ensures frame: forall k:Str :: !idxkey(k) && !((kvhas(k) <==> old(kvhas(k))) && kvval(k) == old(kvval(k))) ==>
 //@       (exists j :: 0 <= j && j < len(vertices) && k == vkeyOf(kgdb.graph, vertices[j].ID))
 //@   ensures touch: result == nil && len(vertices) > 0 ==> touched(kgdb.graph)
 //@   ensures notouch: len(vertices) == 0 ==> same(touchedset(), old(touchedset()))
+//@   ensures real: touched(kgdb.graph) && !old(touched(kgdb.graph)) ==> (exists j :: 0 <= j && j < len(vertices) && kvhas(vkeyOf(kgdb.graph, vertices[j].ID)))
 //@   ensures onlythis: forall g:Str :: g != kgdb.graph ==> (touched(g) <==> old(touched(g)))
 //@   ensures atomic: kvwrites() <= old(kvwrites()) + 1
 
 //@ func (*KVInterfaceGDB).AddEdge
+//@   vars kgdb edges bulkErr err tx changed edge e err err
 //@   property C04 C03
 //@   option prelude=keys,kv
 //@   option load=kvindex,kvi,timestamp,gdbi,gripql
@@ -285,6 +295,7 @@ package kvgraph
 //@          k == dkeyOf(kgdb.graph, edges[j].From, edges[j].To, edges[j].ID, edges[j].Label, 1)))
 //@   loop 101 invariant quiet: same(touchedset(), old(touchedset())) && (bulkErr == nil && rangeindex >= 0 ==> changed) && (rangeindex < 0 ==> !changed)
 //@   loop 101 invariant bound: rangeindex < len(edges)
+//@   loop 101 invariant stored: changed ==> (exists j :: 0 <= j && j <= rangeindex && kvhas(ekeyOf(kgdb.graph, edges[j].ID, edges[j].From, edges[j].To, edges[j].Label, 1)))
 //@   loop 101 invariant nw: kvwrites() == old(kvwrites())
 //@   ensures frame: forall k:Str :: !idxkey(k) && !((kvhas(k) <==> old(kvhas(k))) && kvval(k) == old(kvval(k))) ==>
 //@       (exists j :: 0 <= j && j < len(edges) && (k == ekeyOf(kgdb.graph, edges[j].ID, edges[j].From, edges[j].To, edges[j].Label, 1) ||
@@ -292,6 +303,7 @@ package kvgraph
 //@          k == dkeyOf(kgdb.graph, edges[j].From, edges[j].To, edges[j].ID, edges[j].Label, 1)))
 //@   ensures touch: result == nil && len(edges) > 0 ==> touched(kgdb.graph)
 //@   ensures notouch: len(edges) == 0 ==> same(touchedset(), old(touchedset()))
+//@   ensures real: touched(kgdb.graph) && !old(touched(kgdb.graph)) ==> (exists j :: 0 <= j && j < len(edges) && kvhas(ekeyOf(kgdb.graph, edges[j].ID, edges[j].From, edges[j].To, edges[j].Label, 1)))
 //@   ensures onlythis: forall g:Str :: g != kgdb.graph ==> (touched(g) <==> old(touched(g)))
 //@   ensures atomic: kvwrites() <= old(kvwrites()) + 1
 
@@ -299,6 +311,7 @@ package kvgraph
 // other graph (graph names are NUL-free, so one graph's prefixes never capture
 // another's keys -- lemmas keys.prefix.*); errors of the store are reported.
 //@ func (*KVGraph).DeleteGraph
+//@   vars kgraph graph eprefix err vprefix err sprefix err dprefix err graphKey err
 //@   property C04 C03 C16
 //@   option prelude=keys,kv
 //@   option load=kvindex,kvi,timestamp
@@ -321,6 +334,7 @@ package kvgraph
 // AddGraph: an invalid name is refused and changes nothing; a valid name stores the
 // graph key (and index registrations), leaving every other non-index key alone.
 //@ func (*KVGraph).AddGraph
+//@   vars kgraph graph err
 //@   property C03 C16 C04
 //@   option prelude=keys,kv
 //@   option load=kvindex,kvi,timestamp,gripql
@@ -339,6 +353,7 @@ package kvgraph
 // which is why 'unindexed' below cannot hold: KNOWN FINDING, the label index keeps the
 // deleted vertex (label scans and label listings still report it).
 //@ func (*KVInterfaceGDB).DelVertex
+//@   vars kgdb id vid skeyPrefix dkeyPrefix delKeys it skey sid did eid label etype ekey dkey dkey sid did eid label etype ekey skey tx err k err
 //@   property C03 C04
 //@   option prelude=keys,kv,idxkeys
 //@   option load=kvindex,kvi,timestamp
@@ -371,6 +386,7 @@ package kvgraph
 // the whole stream is consumed; an element that fails validation is skipped (insertVertex
 // #ensures:rejected leaves the store unchanged) without stopping the others.
 //@ func (*KVInterfaceGDB).BulkAdd
+//@   vars kgdb stream bulkErr err tx changed writeErr elem vertex err err edge err err
 //@   property C18 C03
 //@   option prelude=keys,kv
 //@   option load=kvindex,kvi,timestamp,gdbi,gripql
@@ -391,6 +407,9 @@ package kvgraph
 //@             k == dkeyOf(kgdb.graph, stream[j].Edge.From, stream[j].Edge.To, stream[j].Edge.ID, stream[j].Edge.Label, 1)))))
 //@   loop 101 invariant quiet: same(touchedset(), old(touchedset())) && (rd(stream) == 0 ==> !changed)
 //@   loop 101 invariant nw: kvwrites() == old(kvwrites())
+//@   loop 101 invariant stored: changed ==> (exists j :: 0 <= j && j < rd(stream) && (
+//@          (stream[j].Vertex != nil && kvhas(vkeyOf(kgdb.graph, stream[j].Vertex.ID))) ||
+//@          (stream[j].Vertex == nil && stream[j].Edge != nil && kvhas(ekeyOf(kgdb.graph, stream[j].Edge.ID, stream[j].Edge.From, stream[j].Edge.To, stream[j].Edge.Label, 1)))))
 //@   ensures frame: forall k:Str :: !idxkey(k) && !((kvhas(k) <==> old(kvhas(k))) && kvval(k) == old(kvval(k))) ==>
 //@       (exists j :: 0 <= j && j < len(stream) && (
 //@          (stream[j].Vertex != nil && k == vkeyOf(kgdb.graph, stream[j].Vertex.ID)) ||
@@ -400,6 +419,9 @@ package kvgraph
 //@             k == dkeyOf(kgdb.graph, stream[j].Edge.From, stream[j].Edge.To, stream[j].Edge.ID, stream[j].Edge.Label, 1)))))
 //@   ensures drained: rd(stream) == len(stream)
 //@   ensures notouch: len(stream) == 0 ==> same(touchedset(), old(touchedset()))
+//@   ensures real: touched(kgdb.graph) && !old(touched(kgdb.graph)) ==> (exists j :: 0 <= j && j < len(stream) && (
+//@          (stream[j].Vertex != nil && kvhas(vkeyOf(kgdb.graph, stream[j].Vertex.ID))) ||
+//@          (stream[j].Vertex == nil && stream[j].Edge != nil && kvhas(ekeyOf(kgdb.graph, stream[j].Edge.ID, stream[j].Edge.From, stream[j].Edge.To, stream[j].Edge.Label, 1)))))
 //@   ensures onlythis: forall g:Str :: g != kgdb.graph ==> (touched(g) <==> old(touched(g)))
 //@   ensures atomic: kvwrites() <= old(kvwrites()) + 1
 
@@ -407,6 +429,7 @@ package kvgraph
 // GetVertex returns a vertex iff the vertex key of (graph, id) is stored (and its value
 // decodes); the result carries the requested id and the stored label; nothing is written.
 //@ func (*KVInterfaceGDB).GetVertex
+//@   vars kgdb id loadProp vkey v err it dataValue err gv
 //@   property C03
 //@   option prelude=keys,kv
 //@   option load=kvindex,kvi,timestamp,gdbi,gripql
@@ -430,6 +453,7 @@ package kvgraph
 // GetEdge returns an edge iff some edge key of (graph, id) is stored; id, endpoints and
 // label are the components of that key; nothing is written.
 //@ func (*KVInterfaceGDB).GetEdge
+//@   vars kgdb id loadProp ekeyPrefix e err it eid src dst label d ge err
 //@   property C03
 //@   option prelude=keys,kv
 //@   option load=kvindex,kvi,timestamp,gdbi,gripql
@@ -451,6 +475,7 @@ package kvgraph
 // id of a stored vertex key, in strictly increasing key order (so no vertex twice); it
 // writes nothing and closes the channel.
 //@ func (*KVInterfaceGDB).GetVertexList$1
+//@   vars o kgdb ctx it vPrefix gv dataValue keyValue vid
 //@   property C03
 //@   option prelude=keys,kv,idxcount,ctx
 //@   option load=kvindex,kvi,timestamp,gdbi,gripql
@@ -481,6 +506,7 @@ package kvgraph
 // components of a stored key, in strictly increasing key order. (With loading, id and
 // label are read from the stored value: not stated here.)
 //@ func (*KVInterfaceGDB).GetEdgeList$1
+//@   vars o kgdb ctx loadProp it ePrefix keyValue eid sid did label etype edgeData ge e e
 //@   property C03
 //@   option prelude=keys,kv,idxcount,ctx
 //@   option load=kvindex,kvi,timestamp,gdbi,gripql
@@ -507,6 +533,7 @@ package kvgraph
 
 // ---- C03: adjacency reads, first half (scan of the by-source index) --------------------
 //@ func contains
+//@   vars a v i
 //@   property C03
 //@   pure
 //@   loop 1 invariant none: forall j :: 0 <= j && j <= rangeindex ==> a[j] != v
@@ -530,6 +557,7 @@ package kvgraph
 // of items is exact: one per stored entry under the prefix, or one null item when there is
 // none and emitNull is set. Nothing is written.
 //@ func (*KVInterfaceGDB).GetOutChannel$1
+//@   vars vertexChan kgdb reqChan edgeLabels emitNull it req found skeyPrefix keyValue dst label etype vkey
 //@   property C03
 //@   option prelude=keys,kv,idxcount,trav
 //@   option load=kvindex,kvi,timestamp,gdbi,gripql
@@ -585,6 +613,7 @@ package kvgraph
 // answers is exact (one per stored entry, or one null answer when there is none and emitNull
 // is set). Nothing is written. Assumes well-formed index keys whose edge key is stored.
 //@ func (*KVInterfaceGDB).GetOutEdgeChannel$1
+//@   vars o kgdb reqChan edgeLabels load emitNull it req found skeyPrefix keyValue src dst eid label edgeType e ekey dataValue err ge
 //@   property C03
 //@   option prelude=keys,kv,idxcount,trav
 //@   option load=kvindex,kvi,timestamp,gdbi,gripql
@@ -627,6 +656,7 @@ package kvgraph
 //@   ensures readonly: same(kvdom(), old(kvdom())) && same(kvvals(), old(kvvals())) && kvwrites() == old(kvwrites())
 
 //@ func (*KVInterfaceGDB).GetInEdgeChannel$1
+//@   vars o kgdb reqChan edgeLabels load emitNull it req dkeyPrefix found keyValue src dst eid label edgeType e ekey dataValue err ge
 //@   property C03
 //@   option prelude=keys,kv,idxcount,trav
 //@   option load=kvindex,kvi,timestamp,gdbi,gripql
@@ -673,6 +703,7 @@ package kvgraph
 // an admitted label (entries whose source vertex is not stored are skipped, so no exact
 // count is stated).
 //@ func (*KVInterfaceGDB).GetInChannel$1
+//@   vars o kgdb reqChan edgeLabels emitNull it req found dkeyPrefix keyValue src label vkey dataValue err v
 //@   property C03
 //@   option prelude=keys,kv,idxcount,trav
 //@   option load=kvindex,kvi,timestamp,gdbi,gripql
@@ -709,6 +740,7 @@ package kvgraph
 // First half: requests are answered in order; a signal is passed on; a request whose vertex
 // key is stored is passed on with the stored bytes; a request for an absent id is dropped.
 //@ func (*KVInterfaceGDB).GetVertexChannel$1
+//@   vars data kgdb ids it id vkey dataValue err
 //@   property C03
 //@   option prelude=keys,kv,trav
 //@   option load=kvindex,kvi,timestamp,gdbi,gripql
@@ -736,6 +768,7 @@ package kvgraph
 // item becomes the request with a vertex carrying the requested id (the label comes from
 // decoding the stored bytes, whose failure the code ignores: not stated).
 //@ func (*KVInterfaceGDB).GetVertexChannel$2
+//@   vars out data d v
 //@   property C03
 //@   option prelude=keys,kv,trav
 //@   option load=kvindex,kvi,timestamp,gdbi,gripql
@@ -755,6 +788,7 @@ package kvgraph
 // with the vertex stored under that key, carrying the id the key spells (items whose key
 // is not stored, or whose bytes do not decode, are dropped). Nothing is written.
 //@ func (*KVInterfaceGDB).GetOutChannel$2
+//@   vars o kgdb vertexChan it req dataValue err gid v
 //@   property C03
 //@   option prelude=keys,kv,trav
 //@   option load=kvindex,kvi,timestamp,gdbi,gripql
